@@ -7,7 +7,7 @@
                    model, no division by zero)
      constructible the model's own arithmetic is defined on the vector *)
 From Coq Require Import List String Bool.
-From PAFC01 Require Import ModelTree Proofs6.
+From PAFC01 Require Import ModelTree Proofs8.
 From PAFC03 Require Import Model Proofs Proofs2 Proofs3 Proofs4.
 Import ListNotations.
 
